@@ -147,12 +147,9 @@ class Run:
         self.rec = LifecycleRecorder(world, self.harness, atomic=(L.SERVE, L.SHUTDOWN))
         # ---- swarm
         self.perturb = world.choose("perturb", 3)  # 0 => no explicit yields, plain selector (baseline third)
-        hosts: list[Any] = ["127.0.0.1", "sim.host", ["127.0.0.1", "sim.host"]]
-        if kind == "udp" and world.avoid_known:
-            # open finding (create_udp_listeners leaks the not-yet-wrapped sockets when it is interrupted): its exact input
-            # class is "UDP server with >= 2 listener sockets"; API.md rule 6
-            hosts = hosts[:2]
-        self.host: Any = world.pick("host", hosts)
+        # two hosts => two listener sockets: the class in which an interrupted create_udp_listeners() used to leak a bound
+        # socket (fixed in /repo 7371dd8); generated in every run
+        self.host: Any = world.pick("host", ["127.0.0.1", "sim.host", ["127.0.0.1", "sim.host"]])
         if self.perturb:
             self.backend.getaddrinfo_delay = (0.0, 1 / 64.0, 3 / 64.0)[world.choose("dns_delay", 3)]
             self.init_delay = (0.0, 0.0, 1 / 64.0, 4 / 64.0)[world.choose("init_delay", 4)]
@@ -288,13 +285,7 @@ class Run:
         return out
 
     async def do_close(self, actor: str) -> str:
-        if self.world.avoid_known and actor != "epi":
-            # open finding (server_close() while a serve_forever is inside server_activate() may be ignored): API.md rule 6.
-            # The call is postponed until no serve_forever can be starting.
-            for _ in range(int(CALL_BOUND * 64)):
-                if not self.rec.model.possibly(L.STARTING):
-                    break
-                await asyncio.sleep(1 / 64.0)
+        # server_close() overlapping a serve_forever() start-up (formerly ignored: fixed in /repo 9f1317d) is generated in every run
         out = await self._call(actor, L.CLOSE, lambda opid: self.srv.server_close(), {"BusyResourceError": L.BUSY_ERROR})
         if out == L.NONE:
             still = sorted(s.label for s in self.registered.values() if not s.sim_closed)
